@@ -64,8 +64,16 @@ package types
 //@ func (LeaseID).DeploymentID
 //@   ensures result.Owner == id.Owner && result.DSeq == id.DSeq
 // escrow ids of market objects (scope; the textual id mapping is C05)
+//@ spec bidXID(id: BidID): str
+//@ spec leasePID(id: LeaseID): str
+//@ func (BidID).String
+//@   trusted
+//@   ensures result == bidXID(id)
 //@ func EscrowAccountForBid
-//@   ensures result.Scope == "bid"
+//@   ensures result.Scope == "bid" && result.XID == bidXID(id)
+//@ func EscrowPaymentForLease
+//@   trusted
+//@   ensures result == leasePID(id)
 // bids are accepted on open orders only; a new order is created only over closed ones
 //@ func (Order).ValidateCanBid
 //@   ensures result == nil <==> o.State == OrderOpen
